@@ -639,3 +639,144 @@ def reader_state(ctx):
                           'model exists)' % (fl, _ranges(bad), 'dictionary reset' if role == 'dict' else 'properties / probability model'))
         else:
             ctx.ok(key, f.loc(0), 'with `%s` set every control byte in %s ends in Err on all paths' % (fl, _ranges(must_err)))
+
+
+# --------------------------------------------------------------------------- WINDOW-ALIGN
+
+def _low_zero_bits(F, fn, e, depth=0):
+    """Number of low bits of e that are provably zero (0 = nothing known)."""
+    if depth > 8:
+        return 0
+    k = e[0]
+    if k == 'const':
+        v = e[2]
+        if isinstance(v, int) and not isinstance(v, bool):
+            if v == 0:
+                return 64
+            n = 0
+            while v % 2 == 0:
+                v //= 2
+                n += 1
+            return n
+        return 0
+    if k in ('cast',):
+        return _low_zero_bits(F, fn, e[2], depth + 1)
+    if k in ('trybranch', 'downcast'):
+        return _low_zero_bits(F, fn, e[1], depth + 1)
+    if k == 'field' and e[2] == '0' and e[1][0] in ('bin', 'downcast'):
+        return _low_zero_bits(F, fn, e[1], depth + 1)
+    if k == 'un' and e[1] == 'Not':
+        # !c for a constant c with low one bits
+        c = e[2]
+        if c[0] == 'const' and isinstance(c[2], int):
+            v, n = c[2], 0
+            while v % 2 == 1:
+                v //= 2
+                n += 1
+            return n
+        return 0
+    if k == 'bin':
+        op = e[1].replace('WithOverflow', '')
+        a = _low_zero_bits(F, fn, e[2], depth + 1)
+        b = _low_zero_bits(F, fn, e[3], depth + 1)
+        if op == 'BitAnd':
+            return max(a, b)
+        if op in ('Add', 'Sub', 'BitOr', 'BitXor'):
+            return min(a, b)
+        if op == 'Mul':
+            return a + b
+        if op == 'Shl' and e[3][0] == 'const' and isinstance(e[3][2], int):
+            return a + e[3][2]
+        return 0
+    if k == 'call':
+        ln = e[1].split('::')[-1]
+        if ln in ('unwrap', 'expect', 'from', 'into', 'try_from', 'try_into', 'max', 'min') and e[2]:
+            return min(_low_zero_bits(F, fn, a, depth + 1) for a in (e[2] if ln in ('max', 'min') else e[2][:1]))
+        node = e[3] if len(e) > 3 else None
+        c = callee_of(node) if node else None
+        if c and c.get('local'):
+            g = F.by_path.get(c['path'])
+            if g is not None:
+                pg = Prov(g)
+                vals = []
+                for bi, x in pg.def_exprs(0):
+                    if x[0] == 'agg' and str(x[1]).startswith('adt:'):
+                        if str(x[1]).endswith(('::Err', '::None')) or not x[2]:
+                            continue
+                        x = x[2][0]
+                    if x[0] == 'call' and x[1].endswith('from_residual'):
+                        continue
+                    vals.append(_low_zero_bits(F, g, x, depth + 1))
+                return min(vals) if vals else 0
+        return 0
+    return 0
+
+
+@rule('WINDOW-ALIGN', ['C03', 'C01'], floor=2)
+def window_align(ctx):
+    """The decoder takes its position bits (pos_state, literal position) from the position inside the cyclic
+    window, so the window length must be a multiple of 2^4 (pb, lp <= 4): otherwise the bits go out of phase
+    with the encoder (and with liblzma, which rounds its window the same way) once the window wraps. Every
+    call that sizes the decoder window passes a value whose low four bits are provably zero."""
+    F = ctx.facts
+    # the window type: its position accessor is masked with `pos_mask`
+    wins = set()
+    for f in F.fns:
+        if f.kind == 'closure':
+            continue
+        prov = None
+        for bi, b in enumerate(f.blocks):
+            if b['cleanup']:
+                continue
+            for si, s in enumerate(b['stmts']):
+                if s['k'] == 'assign' and s['rv']['r'] == 'bin' and s['rv']['op'] == 'BitAnd':
+                    prov = prov or Prov(f)
+                    e = prov.rvalue(s['rv'], 0, '%d:%d' % (bi, si))
+                    if any(x[0] == 'field' and x[2] == 'pos_mask' for x in expr_walk(e)):
+                        for x in expr_walk(e):
+                            if x[0] == 'call' and len(x) > 3 and x[3]:
+                                c = callee_of(x[3])
+                                g = F.by_path.get(c['path']) if c and c.get('local') else None
+                                if g is not None and g.self_adt and 'Decoder' in g.self_adt:
+                                    wins.add(g.self_adt)
+    if len(wins) != 1:
+        return ctx.anchor_missing('decoder window type whose position is masked with pos_mask (found %s)' % sorted(wins))
+    W = list(wins)[0]
+    ctors = [g for g in F.fns if g.self_adt == W and g.kind != 'closure' and
+             not (g.arg_count >= 1 and g.locals[1].get('name') == 'self') and
+             any(c.is_('vec::from_elem', 'Vec::with_capacity') for _, _, c in g.calls())]
+    if len(ctors) != 1:
+        return ctx.anchor_missing('allocating constructor of %s' % W)
+    ctor = ctors[0]
+    # which parameter sizes the buffer
+    pc = Prov(ctor)
+    size_param = None
+    for bi, t, c in ctor.calls():
+        if c.is_('vec::from_elem') and len(t['args']) > 1:
+            e = pc.operand(t['args'][1], 0, '%d:T' % bi)
+            ps = [x[1] for x in expr_walk(e) if x[0] == 'param']
+            if ps:
+                size_param = ps[0]
+    if size_param is None:
+        return ctx.anchor_missing('buffer size parameter of %s' % ctor.key)
+    n = 0
+    for f in F.fns:
+        if f.kind == 'closure':
+            continue
+        prov = None
+        for bi, t, c in f.calls():
+            if ctor not in F.resolve_callee(c) or len(t['args']) < size_param:
+                continue
+            prov = prov or Prov(f)
+            e = prov.operand(t['args'][size_param - 1], 0, '%d:T' % bi)
+            n += 1
+            z = _low_zero_bits(F, f, e)
+            key = '%s:window-multiple-of-16' % f.key
+            if z >= 4:
+                ctx.ok(key, f.loc(bi), 'window size %s has %d low zero bits' % (expr_str(e)[:70], min(z, 64)))
+            else:
+                ctx.violation(key, f.loc(bi), 'the decoder window is sized with %s, which is not provably a multiple of 16: the '
+                              'position bits the decoder derives from the window position go out of phase once the window wraps '
+                              '(streams from liblzma with such dictionary sizes are rejected or decoded wrongly)' % expr_str(e)[:90])
+    if n == 0:
+        ctx.anchor_missing('call sites of %s' % ctor.key)
